@@ -10,52 +10,52 @@ def add(i, cat, tech, text, note, ref): C[i] = (cat, tech, text, note, ref)
 
 T="Trusted: SQLite/bbolt atomicity, the Go runtime, secp256k1/btcec/zpay32 libraries, the harness's LN model and refcrypto."
 add("C01","exploration","runtime monitor: use-count + stickiness oracle over sequential adversarial histories and a controlled-scheduler DFS over the preemption-bounded DB/LN-call interleavings of request pairs; porcupine + -race in thorough",
-    "Real mint under (a) seeded sequential histories that re-present used/locked secrets in every way the statement lists, judged against a reference model, and (b) a deterministic scheduler that parks every request before and after each storage/Lightning call (lock waits are detected) and enumerates the interleavings of swap||swap, swap||melt (each LN outcome), melt||melt, checkstate||melt, swap||poll/state-check settling a pending melt on one proof (quick: all schedules with <= 3 preemptions; thorough: <= 5 preemptions, at most 10000 per scenario); oracle counts successful swaps plus Lightning payments made per secret (<=1) and probes SPENT stickiness incl. after restart. Thorough adds sampled triples, free-running stress checked for linearizability with porcupine and a race-detector pass.",
+    "Real mint under (a) seeded sequential histories that re-present used/locked secrets in every way the statement lists, judged against a reference model, and (b) a deterministic scheduler that parks every request before and after each storage/Lightning call (lock waits are detected) and enumerates the interleavings of swap||swap, swap||melt (each LN outcome), melt||melt, checkstate||melt, swap||poll/state-check settling a pending melt on one proof (quick: all schedules with <= 3 preemptions; thorough: <= 5 preemptions, at most 10000 per scenario); oracle counts successful swaps plus Lightning payments made per secret (<=1) and probes SPENT stickiness incl. after restart. The sequential histories also ask POST /v1/checkstate with identical bytes before and after proofs are spent. Thorough adds sampled triples, free-running stress (typed API and, every other history, the HTTP router with its response cache) checked for linearizability with porcupine and a race-detector pass.",
     T+" Interleavings are complete for the enumerated pairs only (DESIGN 1.1 argument); triples and stress are samples.", "3/C01")
 add("C02","exploration","runtime monitor: conservation ledger (signed - redeemed - locked + LN out <= LN in, msat) and local balance/fee-limit assertions after every operation of generated histories",
     "Real mint against an LN model that charges the full fee limit it is authorised; seeded honest+adversarial histories over the six fee rates with rotations, internal settlement, MPP, failing/pending payments and sub-sat invoice amounts; the ledger inequality and the local forms (swap, mint, melt, fee limit <= fee reserve, invoice >= quoted amount) are checked after every operation. Part of the runs put gonuts' own CLN and LND adapters between the mint and the model (fake CLN REST node, fake lnd gRPC server).",
     T+" Watcher notifications are not delivered in these histories (C03 covers them).", "3/C02")
 add("C03","exploration","runtime monitor: issuance-count oracle per quote over sequential histories, NUT-20 tamper matrix, and controlled-scheduler enumeration of mint||mint, mint||notification, mint||poll interleavings",
-    "Real mint; per quote #successful issuances <= #payments at every point, never before payment, sum <= amount, NUT-20 signature recomputed by the harness; the DB/LN-call interleavings of two mint requests with different outputs, of a mint request with the late watcher notification and with a state poll are enumerated by the scheduler (quick: <= 2 preemptions; thorough: <= 5 preemptions, at most 10000 per scenario, plus internal settlement); thorough adds sampled three-way schedules, porcupine stress and -race. Part of the runs put gonuts' own CLN and LND adapters between the mint and the model (fake CLN REST node, fake lnd gRPC server). Invoices that lapse unpaid must stay UNPAID.",
+    "Real mint; per quote #successful issuances <= #payments at every point, never before payment, sum <= amount, NUT-20 signature recomputed by the harness; the DB/LN-call interleavings of two mint requests with different outputs, of a mint request with the late watcher notification and with a state poll are enumerated by the scheduler (quick: <= 2 preemptions; thorough: <= 5 preemptions, at most 10000 per scenario, plus internal settlement); thorough adds sampled three-way schedules, porcupine stress and -race. Part of the runs put gonuts' own CLN and LND adapters between the mint and the model (fake CLN REST node, fake lnd gRPC server). Invoices that lapse unpaid must stay UNPAID; an invoice paid in time and polled only after it lapsed must be PAID and mintable once; on mints that offer multi-path melts a melt quote that would settle an own quote for less is a violation.",
     T+" Complete for the enumerated pairs only.", "3/C03")
 add("C04","exploration","runtime monitor: accept/reject oracle over generated single-field mutants of really minted proofs (refcrypto decides genuineness)",
-    "Real mint (LoadMint + SQLite) with three keysets; valid proofs on every keyset and denomination class are minted, every value mutation of amount/id/C/secret is presented alone, after and before a valid proof through Swap and MeltTokens; mutants must be refused, originals still accepted afterwards; honestly signed secrets over 512 bytes in several encodings must be refused, 512-byte ones accepted. Held on the cases listed in the evidence, not for all inputs.",
+    "Real mint (LoadMint + SQLite) with three keysets; valid proofs on every keyset and denomination class are minted, every value mutation of amount/id/C/secret is presented alone, after and before a valid proof through Swap, MeltTokens and MeltTokens on a quote for the mint's own invoice (settled without a payment); mutants must be refused, originals still accepted afterwards; honestly signed secrets over 512 bytes in several encodings must be refused, 512-byte ones accepted. Held on the cases listed in the evidence, not for all inputs.",
     T+" Re-encodings of the same point are not generated.", "3/C04")
 add("C05","fault_enumeration","runtime monitor: decision-table oracle over exhaustively enumerated scripts of Lightning answers (pay x status lookups, length <= 4) and poll channels",
-    "Real MeltTokens/GetMeltQuoteState/ProofsStateCheck under a fully scripted backend: every pay answer x every status-lookup sequence up to length 3 x poll channel assignment; observed quote state, proof state, in-flight observation inside the pay call and a follow-up swap are compared with the reference table (locked / spent / released), applied to the backend answers the code actually consumed; probes made while the pay call executes (second melt, state checks, poll, swap) against a backend that may not know the payment yet. Part of the runs put gonuts' own CLN and LND adapters between the mint and the model (fake CLN REST node, fake lnd gRPC server).",
+    "Real MeltTokens/GetMeltQuoteState/ProofsStateCheck under a fully scripted backend: every pay answer x every status-lookup sequence up to length 3 x poll channel assignment; observed quote state, proof state, in-flight observation inside the pay call and a follow-up swap are compared with the reference table (locked / spent / released), applied to the backend answers the code actually consumed; probes made while the pay call executes (second melt, state checks, poll, swap) against a backend that may not know the payment yet; a second melt of the unresolved quote with other inputs; byte-identical melt requests re-sent over HTTP, whose 200 answers must agree with the persisted state. Part of the runs put gonuts' own CLN and LND adapters between the mint and the model (fake CLN REST node, fake lnd gRPC server).",
     T+" Exhaustive within script length <= 4; 'no such payment' on a poll is permitted either way as the statement says.", "3/C05")
 add("C06","exploration","runtime monitor: full-state digest before/after every refused request + panic/hang detection over a grammar of structural and semantic mutants, API and HTTP",
-    "Real mint + HTTP handler; every request derived by the mutation grammar is sent at every state of a running history; if it is refused the digest of all tables (read through a separate read-only connection) must be unchanged and the corrected request must succeed; panics and hangs are violations.",
+    "Real mint + HTTP handler; every request derived by the mutation grammar is sent at every state of a running history; if it is refused the digest of all tables (read through a separate read-only connection) must be unchanged and the corrected request must succeed; panics and hangs are violations. Hex strings also appear in other well-formed lengths and at the edges of their range; the mint request of a NUT-20 locked quote is among the templates.",
     T, "3/C06")
 add("C07","fault_enumeration","runtime monitor: crash (sentinel panic + LoadMint) and storage-fault injection at every DB/LN call of every scenario, followed by an adversarial client follow-up judged for safety/durability/atomicity",
-    "For mint, swap, melt with each Lightning outcome, pending-melt resolution, runtime and start-up rotation: a trace run counts the n boundaries, then k=0..n are each crashed and faulted; after restart the harness's own client checks states, restores, re-spends and re-mints and computes realisable value vs. value held before, once re-sending the interrupted request and once going straight for what can be realised; quote and input states must tell one story afterwards.",
+    "For mint (also for a quote whose one-second invoice was paid in time and has lapsed), swap, melt with each Lightning outcome, pending-melt resolution, melt and swap of inputs that were spent before, runtime and start-up rotation: a trace run counts the n boundaries, then k=0..n are each crashed and faulted; after restart the harness's own client checks states, restores, re-spends and re-mints and computes realisable value vs. value held before, once re-sending the interrupted request and once going straight for what can be realised; quote and input states must tell one story afterwards.",
     T+" A crash is simulated in-process at call boundaries (sentinel panic, instance abandoned, LoadMint on the same directory; no transaction is open at a boundary); start-up rotation is covered through the RotateKeyset it calls. Nine genuine windows that need multi-table transactions are listed as known findings.", "3/C07")
-add("C08","exploration","runtime monitor: byte-level inspection of every HTTP request body of real wallets against all blinding factors and output secrets known from the store proxy and an independent NUT-13 derivation",
-    "Two real wallets and 1-2 real mints in one process over an in-process transport; histories over every wallet operation path; each request body is searched for every known r (hex, case-insensitive), for any JSON key r, and for output secrets before the proof is spent; one blinding factor under two secrets, and a secret that is itself a blinding factor, are flagged; a directed sequence per history makes every kind of request once.",
+add("C08","exploration","runtime monitor: byte-level inspection of every HTTP request body of real wallets against all blinding factors (and their public points), output secrets and mint-issued signature data known from the store proxy, the transport record and an independent NUT-13 derivation",
+    "Two real wallets and 1-2 real mints in one process over an in-process transport; histories over every wallet operation path; each request body is searched for every known r (hex, case-insensitive), for any JSON key r, and for output secrets before the proof is spent; one blinding factor under two secrets, a secret that is itself a blinding factor, the public point r*G of a known blinding factor, and any DLEQ e / s or C_ that a mint has handed out and that comes back in a request are flagged; a directed sequence per history makes every kind of request once.",
     T, "3/C08")
 add("C09","exploration","runtime monitor: keyset-list / id / active-flag / fee-boundary assertions after every restart and rotation of generated lifecycle histories",
     "Real mint through sequences of restarts, start-up rotations and runtime rotations with varying fees, with traffic on old and new keysets; every earlier keyset must reappear byte-identical with id = NUT-02 derivation (refcrypto) and keys = BIP32 derivation from the stored seed, exactly one active, outputs on other keysets refused (also mixed), old proofs spendable with exactly their own keyset's fee.",
     T, "3/C09")
 add("C10","exploration","runtime monitor: algebraic and tamper oracle (refcrypto recomputation) over generated tuples and over signatures observed in real histories incl. after persistence",
-    "crypto.* and nut12.* are executed on generated secrets/scalars/keys incl. edge values and on every signature of real mint histories (returned, stored, restored); results are recomputed with the independent math/big implementation; every single-field tampering must make verification fail; proofs kept and handed out by real wallets are re-verified with the reference DLEQ check using their r; unblinding leaves its arguments unchanged.",
+    "crypto.* and nut12.* are executed on generated secrets/scalars/keys incl. edge values and on every signature of real mint histories (returned, stored, restored); results are recomputed with the independent math/big implementation; every single-field tampering must make verification fail; proofs kept and handed out by real wallets are re-verified with the reference DLEQ check using their r; answers to a real wallet's mint and swap requests are altered in one place on the way (amount, C_, e, s, order): the wallet must refuse them and keep no proof that fails the reference check; unblinding leaves its arguments unchanged.",
     T+" Agreement on the generated inputs, not for all inputs.", "3/C10")
 add("C11","exploration","runtime differential monitor: repository derivations vs. an independent spec implementation (math/big, crypto/hmac) bit-for-bit",
     "HashToCurve, DeriveKeysetId, NUT-13 path/secret/blinding factor are compared with refcrypto on generated messages (length 0..600, multi-iteration ones), key sets in shuffled order, seeds/ids/counters incl. boundary values; the published NUT vectors anchor the reference.",
     "Trusted: crypto/sha256, crypto/hmac, math/big, the published vectors.", "3/C11")
 add("C12","exploration","runtime monitor: independent NUT-11 evaluator vs. VerifyP2PKLockedProof and real Mint.Swap/MeltTokens over the configuration x witness x position product",
-    "Accepted => authorised (one-directional), completeness for the library's own signing helpers; SIG_ALL rules checked through the real mint with really minted locked proofs (other JSON spellings of the secret included); wallet level: SendToPubkey with every tag combination redeemed by Wallet.Receive.",
+    "Accepted => authorised (one-directional), completeness for the library's own signing helpers; SIG_ALL rules checked through the real mint with really minted locked proofs (other JSON spellings of the secret included); wallet level: SendToPubkey with every tag combination redeemed by Wallet.Receive, and before that presented to the mint with witnesses of several classes, each verdict judged by the independent evaluator on the configuration the sender asked the library for.",
     T+" Lock times are +-10^6 s from now; repeated keys in a lock are not generated.", "3/C12")
 add("C13","exploration","runtime monitor: independent NUT-14 evaluator vs. VerifyHTLCProof and real Mint.Swap over the configuration x witness product, plus helper-produced witnesses",
-    "Same construction as C12 for hash locks; AddWitnessHTLC / AddWitnessHTLCToOutputs output must be accepted by the mint (malformed lock values never); wallet level: HTLCLockedProofs with every tag combination redeemed by Wallet.ReceiveHTLC, wrong preimage refused.",
+    "Same construction as C12 for hash locks; AddWitnessHTLC / AddWitnessHTLCToOutputs output must be accepted by the mint (malformed lock values never); wallet level: HTLCLockedProofs with every tag combination redeemed by Wallet.ReceiveHTLC, wrong preimage refused; before that the ecash is presented to the mint with witnesses of several classes (preimage alone, with a foreign key, with the listed co-signer), each verdict judged on the configuration the sender asked for.",
     T, "3/C13")
 add("C14","exploration","runtime monitor: round-trip equality and totality (no panic, every accessor callable) over generated proof lists and decoder inputs",
-    "NewTokenV3/V4 -> Serialize -> DecodeToken on generated proof lists; DecodeToken/DecodeTokenV3/V4 and all accessors on prefixes, short strings, mutations, base64 of generated JSON/CBOR.",
+    "NewTokenV3/V4 -> Serialize -> DecodeToken on generated proof lists and mint URLs of many shapes; DecodeToken/DecodeTokenV3/V4 and all accessors on prefixes, short strings, mutations, base64 of generated JSON/CBOR.",
     "Trusted: encoding/json, fxamacker/cbor.", "3/C14")
 add("C15","exploration","runtime monitor: reference-model comparison of ProofsStateCheck and RestoreSignatures answers after every operation of generated histories",
-    "Real mint histories with swaps, mints, failed/pending/resolved melts, internal settlement, P2PK spends, rotations, restarts; after every operation a mixed query (known/unknown/repeated/malformed, PRNG order) is compared entry by entry with the model (state, order, echo, witness; restored amount/id/C_/e/s); byte-identical /v1/restore and /v1/checkstate requests through the HTTP router before and after a state change must differ accordingly.",
+    "Real mint histories with swaps, mints, failed/pending/resolved melts, internal settlement, P2PK spends, rotations, restarts; after every operation a mixed query (known/unknown/repeated/malformed incl. storage-pattern strings, PRNG order) is compared entry by entry with the model (state, order, echo, witness; restored amount/id/C_/e/s); byte-identical /v1/restore and /v1/checkstate requests through the HTTP router before and after a state change must differ accordingly.",
     T, "3/C15")
 add("C16","exploration","runtime monitor: big-integer reference balances and limit decisions vs. IssuedEcash/RedeemedEcash/TotalBalance/RetrieveMintInfo and quote accept/reject",
-    "Real mint under limit configurations at the boundaries; histories move the balance across the limit in both directions; refusal is demanded above the limits in unbounded arithmetic (also for the mint's own invoices), nuts.4.disabled must equal (balance >= max). Beyond the stated quantifier the scheduler enumerates the preemption-bounded interleavings of a mint request and a swap request carrying one B_, judged by issued total = signatures handed out and by restore.",
+    "Real mint under limit configurations at the boundaries; histories move the balance across the limit in both directions; refusal is demanded above the limits in unbounded arithmetic (also for the mint's own invoices), nuts.4.disabled must equal (balance >= max); every sixth configuration holds totals beyond 2^53; the totals are also asked from the admin RPC server (mint/manager) over its unix socket. Beyond the stated quantifier the scheduler enumerates the preemption-bounded interleavings of a mint request and a swap request carrying one B_, judged by issued total = signatures handed out and by restore.",
     T, "3/C16")
 add("C17","exploration","runtime monitor: wallet-world conservation and balance oracle from the transport record and mint-side proof states after every wallet operation",
     "2-3 real wallets and 1-2 real mints; after every operation reported/pending balances, duplicate secrets, no-loss and conservation equations are evaluated from the byte-level transport record and mint-side states; a swap that leaves more at the mint than the fee the mint charges for its inputs is a loss. A directed sequence per history makes every kind of operation once; the listed finding is reproduced at every seed.",
@@ -67,7 +67,7 @@ add("C19","exploration","runtime monitor: counter-reuse detection on every submi
     "Wallet histories, restore->continue->restore chains, and a crash at every store/HTTP boundary of mint/send/receive/melt followed by restore from the mnemonic.",
     T, "3/C19")
 add("C20","exploration","runtime monitor: NUT-shape validators, cause->code table, fault-to-generic-error and NUT-19 cache replay/near-replay assertions on the in-process HTTP handler",
-    "Hand-built JSON through the real router; every endpoint outcome, every table row, fault at each boundary of each endpoint, byte-identical replays must be served without state-changing DB calls and near-replays must be executed.",
+    "Hand-built JSON through the real router; every endpoint outcome, every table row, fault at each boundary of each endpoint, byte-identical replays must be served without state-changing DB calls (also after 24 further swaps and mints have been answered) and near-replays must be executed.",
     T, "3/C20")
 
 built = [l.strip() for l in open(os.path.join(V,"tools","built.txt")) if l.strip()]
